@@ -527,10 +527,12 @@ class Qobj:
             or n < 0
         ):
             return NotImplemented
+        # A power of a Hermitian (unitary) operator is Hermitian (unitary), but
+        # a power of a non-Hermitian (non-unitary) one can be either.
         return Qobj(_data.pow(self._data, n),
                     dims=self._dims,
-                    isherm=self._isherm,
-                    isunitary=self._isunitary,
+                    isherm=self._isherm or None,
+                    isunitary=self._isunitary or None,
                     copy=False)
 
     def _str_header(self):
